@@ -349,6 +349,11 @@ def check(prop: str, tier: str, seed: int, replay: str | None = None) -> int:
                          'signature': key})
         ev['coverage']['traces_validated_against_impl'] = accepted
         ev['coverage']['distinct_nontrivial'] = nontriv
+        # vacuity guard: a run whose executions hardly ever reach the interesting part (e.g. a
+        # wrapper of the harness breaking every start-up) must not pass as "held"
+        floor = getattr(drv, 'MIN_NONTRIVIAL', 0.02)
+        if not replay and not violations and len(traces) >= 50 and nontriv < floor * len(traces):
+            raise MachineryError(f'vacuous run: only {nontriv} non-trivial executions out of {len(traces)}')
         ev['coverage']['distinct_stimuli'] = len(seen)
         ev['coverage']['samples'] = [traces[i] for i in
                                      sorted({0, len(traces) // 2, len(traces) - 1})][:3]
